@@ -1041,3 +1041,5 @@ V("c20-blockwise-unaligned-not-grid-sensitive", "C20", "R20.6", "dask_array/_blo
 V("c20-twin-blockwise-grid-sensitivity-one-expression", "C20", "-", "dask_array/_blockwise.py",
   "        if type(self) is not Blockwise:\n            return False\n        if not self.align_arrays:\n            return True\n        # An explicit per-block ``adjust_chunks`` tuple has one entry per input\n        # block, so it observes the input's grid as well.\n        adjust_chunks = self.operand(\"adjust_chunks\") or {}\n        return any(isinstance(v, (tuple, list)) for v in adjust_chunks.values())\n",
   "        per_block = any(isinstance(v, (tuple, list)) for v in (self.operand(\"adjust_chunks\") or {}).values())\n        return type(self) is Blockwise and (not self.align_arrays or per_block)\n", twin=True)
+V("c04-map-overlap-not-grid-sensitive", "C04", "R04.12", "dask_array/_overlap.py",
+  "        return len(self.arrays) > 1\n", "        return False\n", expect="MapOverlap")
